@@ -2,11 +2,13 @@
 (* Exhaustive model-checking instances of Numberify: the table spaces.
    Layout of the one-amount-column tables: i (int), x (Amount | Position | Inventory), s (str).
    Numbers: 0, 1, -1, 3/2 (an exact tie at precision 0), 1/4 (quantises to zero at precision 0, a tie at 1).
-   Formatter: AAA has precision 0, BBB precision 1, CCC is unknown to the formatter. *)
+   Display context: AAA is mostly written with 0 fractional digits and at most with 1, BBB mostly with 1 and at
+   most with 2, CCC is unknown to it.  A formatter built with the defaults ("most_common") therefore has precision
+   0 for AAA and 1 for BBB; one built for "maximum" has 1 for AAA (3/2 is exact, 1/4 a tie) and 2 for BBB. *)
 EXTENDS Numberify
 
 CS3 == <<"AAA", "BBB", "CCC">>
-QAB == << <<"AAA", 0>>, <<"BBB", 1>> >>
+DCAB == << <<"AAA", 0, 1>>, <<"BBB", 1, 2>> >>
 Fmt01 == {0, 1}
 Fmt0 == {0}
 Fmt1 == {1}
@@ -114,6 +116,14 @@ ShapesOf ==
       [] Space = "pos" -> << S1("Position", P2q, 2) >>
       [] Space = "inv2lots" -> << S1("Inventory", I2qa2, 1) >>
       [] Space = "dup" -> << D1("Amount", A1, A1, 1) >>
+      \* a formatter built for another precision setting than the default (MC_Numberify_max.cfg): every kind, the
+      \* numbers on which the two settings differ included (3/2, 1/4), several lots of one currency
+      [] Space = "max" ->
+           << S1("Amount", A5, 2), S1("Position", P5, 1), S1("Position", Pq, 2), S1("Inventory", I2qo2, 2),
+              S1("Inventory", I2qa2, 1), S2(A2q, I2qo2, 1), D1("Amount", A2q, A2q, 1) >>
+      [] Space = "gen-max" ->
+           << S1("Amount", A5, 2), S1("Position", P5, 1), S1("Position", Pq, 3), S1("Inventory", I2qa2, 1),
+              S1("Inventory", I2qo2, 2), S2(A2q, I2qo2, 1), D1("Amount", A2q, A2q, 1) >>
       \* spaces emitted for the spec -> code replay (Gen_Numberify)
       [] Space = "gen-quick" ->
            << S1("Amount", A01q, 2), S1("Position", P01q, 2), S1("Inventory", I1o3, 3), S1("Inventory", I2qa2, 2),
